@@ -334,7 +334,8 @@ def check_state(sess, st, findings, stage, tx, calibrated_facet=False):
 
 def mk(stage, tx, what, detail):
     return {"stage": stage, "action": tx["act"]["name"], "out": tx["act"]["out"], "what": what, "detail": detail,
-            "replay": {"hist": tx["hist"], "act": tx["act"]}}
+            "replay": {"engine": "NixArray", "hist": tx["hist"], "act": tx["act"], "from": tx.get("from"), "to": tx.get("to"),
+                       "opts": {k: v for k, v in _W.get("opts", {}).items() if k in ("seed", "mode")}}}
 
 
 def block_raws(tx_state_after, act, state_before):
@@ -517,3 +518,24 @@ def key_of(f):
         if what.endswith(label):
             what = what[:-len(label)]
     return "%s/%s/%s/%s" % (f["action"], f["out"], f["stage"], what)
+
+
+def replay_file(path, prop):
+    with open(path) as fh:
+        rec = json.load(fh)
+    rp = rec["replay"]
+    if not rp or rp.get("to") is None:
+        print("replay file without specification states: re-run ./check %s" % prop)
+        return 2
+    with core.Scratch("arrr") as tmp:
+        _worker_init(dict(rp["opts"], rundir=tmp))
+        res = replay_one({"hist": rp["hist"], "act": rp["act"], "from": rp["from"], "to": rp["to"]})
+    hit = False
+    for f in res["findings"]:
+        for k in (key_of(f), "stateful/" + key_of(f)):
+            hit = hit or k == rec["key"]
+        print("MISMATCH key=%s\n  %s" % (key_of(f), json.dumps(f["detail"], default=repr)[:700]))
+    print("recorded key %s: %s" % (rec["key"], "REPRODUCED" if hit else "not reproduced"))
+    if hit:
+        print("VIOLATION property=%s replay=%s" % (prop, path))
+    return 1 if hit else 0
